@@ -87,8 +87,11 @@ class Builtins(object):
                      'hex', 'iter', 'next', 'repr', 'print', 'reversed', 'getattr', 'callable', 'super', 'complex',
                      'dict', 'object', 'divmod'):
             fn = getattr(self, 'b_' + name, None)
-            if fn is not None:
-                self.table[name] = Builtin(name, fn)
+            if fn is None:
+                # a builtin of Python that the model does not implement is out of reach - never a NameError of the program
+                def fn(it, a, k, _n=name):
+                    raise OutOfReach('builtin %s()' % _n)
+            self.table[name] = Builtin(name, fn)
         for t in ('int', 'float', 'bool', 'str', 'list', 'tuple', 'complex', 'dict', 'object'):
             pass
 
@@ -103,6 +106,12 @@ class Builtins(object):
             return {'True': True, 'False': False, 'None': None}[name]
         if name == 'raw_input':
             raise OutOfReach('raw_input')
+        import builtins as _pyb
+        if hasattr(_pyb, name):
+            # a name Python itself defines (map, filter, set, pow, format ...) that the model does not implement
+            def unmodelled(it, a, k, _n=name):
+                raise OutOfReach('builtin %s' % _n)
+            return Builtin(name, unmodelled)
         return NotImplemented
 
     # ------------------------------------------------------------------ type objects
@@ -1216,6 +1225,17 @@ class Builtins(object):
         f = z3.Function('py_round_int', z3.IntSort(), z3.IntSort(), z3.IntSort())
         x = int_term(ctx, s)
         return mk_int(z3.If(dt >= 0, x, f(x, dt)))
+
+    def b_getattr(self, it, args, kwargs):
+        # a constant attribute name: the attribute access itself (with CPython's default / AttributeError behaviour)
+        if len(args) not in (2, 3) or not isinstance(args[1], str):
+            raise OutOfReach('getattr with a computed name')
+        try:
+            return self.world.ops.getattr(it, args[0], args[1])
+        except PyRaise as pr:
+            if pr.cls == 'AttributeError' and len(args) == 3:
+                return args[2]
+            raise
 
     def b_hasattr(self, it, args, kwargs):
         return self.world.ops.hasattr(it, args[0], args[1])
